@@ -58,7 +58,7 @@ type behaviour struct {
 }
 
 type scriptCase struct {
-	Op       string      `json:"op"` // T | A
+	Op       string      `json:"op"` // T (retry transport) | A (auth client over it, empty cache) | W (same, warm Bearer token cache)
 	MaxRetry int         `json:"max_retry"`
 	Min      int64       `json:"min"`
 	Max      int64       `json:"max"`
@@ -149,10 +149,10 @@ func (timeoutErr) Temporary() bool { return true }
 var errOther = errors.New("scripted: connection reset by peer")
 
 type attemptRec struct {
-	t      int64
-	got    []byte
-	authed bool
-	beh    behaviour
+	t    int64
+	got  []byte
+	auth string // Authorization header of the request
+	beh  behaviour
 }
 
 const tokenHost = "token.example"
@@ -162,6 +162,7 @@ type server struct {
 	script []behaviour
 	pos    int
 	log    []attemptRec
+	tokens int
 }
 
 func (s *server) RoundTrip(req *http.Request) (*http.Response, error) {
@@ -175,14 +176,15 @@ func (s *server) RoundTrip(req *http.Request) (*http.Response, error) {
 			io.Copy(io.Discard, req.Body)
 			req.Body.Close()
 		}
-		return mk(200, `{"access_token":"tok","token":"tok"}`), nil
+		s.tokens++
+		return mk(200, fmt.Sprintf(`{"access_token":"tok%d","token":"tok%d"}`, s.tokens, s.tokens)), nil
 	}
 	b := behaviour{Kind: "S", Code: 200, Read: -1}
 	if s.pos < len(s.script) {
 		b = s.script[s.pos]
 	}
 	s.pos++
-	rec := attemptRec{t: int64(time.Since(s.start)), authed: req.Header.Get("Authorization") != "", beh: b}
+	rec := attemptRec{t: int64(time.Since(s.start)), auth: req.Header.Get("Authorization"), beh: b}
 	if req.Body != nil {
 		if b.Read < 0 {
 			rec.got, _ = io.ReadAll(req.Body)
@@ -282,6 +284,25 @@ func execScript(t *testing.T, c *scriptCase) scriptObs {
 	data := c.data()
 	synctest.Test(t, func(t *testing.T) {
 		srv := &server{start: time.Now(), script: c.Script}
+		var authClient *auth.Client
+		if c.Op == "A" || c.Op == "W" {
+			authClient = &auth.Client{Cache: auth.NewCache(),
+				Credential: auth.StaticCredential("registry.example", auth.Credential{Username: "u", Password: "p"})}
+		}
+		if c.Op == "W" {
+			// warm the token cache: one challenged GET, so that a Bearer token for the
+			// challenge's scope is cached before the request under test
+			pol := c.policy()
+			authClient.Client = &http.Client{Transport: &retry.Transport{Base: srv, Policy: func() retry.Policy { return pol }}}
+			srv.script = []behaviour{{Kind: "S", Code: 401, Chal: 2, Read: -1}, {Kind: "S", Code: 200, Read: -1}}
+			wreq, _ := http.NewRequest(http.MethodGet, "http://registry.example/v2/", nil)
+			wresp, werr := authClient.Do(wreq)
+			if werr != nil || wresp.StatusCode != 200 {
+				panic(fmt.Sprint("warm-up failed: ", werr))
+			}
+			wresp.Body.Close()
+			srv.script, srv.pos, srv.log, srv.start = c.Script, 0, nil, time.Now()
+		}
 		ctx := context.Background()
 		var cancel context.CancelFunc = func() {}
 		if c.Cancel >= 0 {
@@ -297,9 +318,9 @@ func execScript(t *testing.T, c *scriptCase) scriptObs {
 		pol := c.policy()
 		hc := &http.Client{Transport: &retry.Transport{Base: srv, Policy: func() retry.Policy { return pol }}}
 		var client remote.Client = hc
-		if c.Op == "A" {
-			client = &auth.Client{Client: hc, Cache: auth.NewCache(),
-				Credential: auth.StaticCredential("registry.example", auth.Credential{Username: "u", Password: "p"})}
+		if authClient != nil {
+			authClient.Client = hc
+			client = authClient
 		}
 		func() {
 			defer func() {
@@ -409,17 +430,18 @@ func scriptCaseRun(t *testing.T, c *scriptCase) {
 	id := run.NewID()
 	obs := execScript(t, c)
 	data := c.data()
-	var first, second []attemptRec
-	for _, r := range obs.log {
-		if r.authed {
-			second = append(second, r)
-		} else {
-			first = append(first, r)
+	// sends: maximal runs of attempts carrying the same Authorization header
+	sends := make([][]attemptRec, 3)
+	si := 0
+	for i, r := range obs.log {
+		if i > 0 && r.auth != obs.log[i-1].auth && si < 2 {
+			si++
 		}
+		sends[si] = append(sends[si], r)
 	}
-	line := fmt.Sprintf("%s end=%d first=%s", obs.res, obs.end, showAttempts(first, data))
-	if c.Op == "A" {
-		line += " second=" + showAttempts(second, data)
+	line := fmt.Sprintf("%s end=%d first=%s", obs.res, obs.end, showAttempts(sends[0], data))
+	if c.Op != "T" {
+		line += " second=" + showAttempts(sends[1], data) + " third=" + showAttempts(sends[2], data)
 	}
 	if c.BigLen == 0 {
 		run.Case(id, c.modelLine(), line)
@@ -467,7 +489,10 @@ func scriptCaseRun(t *testing.T, c *scriptCase) {
 	if limit < 1 {
 		limit = 1
 	}
-	for si, send := range [][]attemptRec{first, second} {
+	if c.Op == "T" && len(sends[1]) > 0 {
+		fail("wrong-result", "the Authorization header changed between attempts of a plain transport")
+	}
+	for si, send := range sends {
 		if len(send) > limit {
 			fail("too-many-attempts", fmt.Sprintf("send %d made %d attempts, MaxRetry=%d", si, len(send), c.MaxRetry))
 		}
@@ -512,7 +537,7 @@ func scriptCaseRun(t *testing.T, c *scriptCase) {
 		last := obs.log[len(obs.log)-1]
 		want := outcomeTruth(last.beh)
 		ok := obs.res == want
-		if !ok && c.Op == "A" && last.beh.Kind == "S" && last.beh.Code == 401 && (last.beh.Chal == 1 || last.beh.Chal == 2) &&
+		if !ok && c.Op != "T" && last.beh.Kind == "S" && last.beh.Code == 401 && (last.beh.Chal == 1 || last.beh.Chal == 2) &&
 			(obs.res == "ENOTREWINDABLE" && c.Body[0] == 'O' || obs.res == "EGETBODY" && c.Body[0] == 'G') {
 			ok = true
 		}
@@ -691,7 +716,7 @@ func genDuration(r *common.Rand) int64 {
 }
 
 func genScript(r *common.Rand, big bool) *scriptCase {
-	c := &scriptCase{Op: common.Pick(r, []string{"T", "A"}), Cancel: -1}
+	c := &scriptCase{Op: common.Pick(r, []string{"T", "T", "A", "A", "W"}), Cancel: -1}
 	c.MaxRetry = common.Pick(r, []int{0, 1, 2, 3, 3, 5, 5, 8, -1})
 	c.Min = genDuration(r)
 	if c.Min < 0 && r.Chance(3, 4) {
@@ -729,11 +754,11 @@ func genScript(r *common.Rand, big bool) *scriptCase {
 	}
 	if (c.Body == "R" || c.Body == "O") && r.Chance(1, 4) {
 		// manifest push through the Repository: M = auth client, m = plain retrying client
-		c.Manifest = map[string]string{"A": "M", "T": "m"}[c.Op]
+		c.Manifest = map[string]string{"A": "M", "T": "m", "W": ""}[c.Op]
 	}
 	ns := r.Intn(2*(maxInt(c.MaxRetry, 0)+1) + 3)
 	for i := 0; i < ns; i++ {
-		c.Script = append(c.Script, genBehaviour(r, c.Op == "A", true))
+		c.Script = append(c.Script, genBehaviour(r, c.Op != "T", true))
 	}
 	if c.Manifest != "" {
 		// a manifest push succeeds with 201 only
@@ -764,7 +789,7 @@ func genScript(r *common.Rand, big bool) *scriptCase {
 				}
 				span += d
 			}
-			if !retryableTruth(b) && !(b.Code == 401 && c.Op == "A") {
+			if !retryableTruth(b) && !(b.Code == 401 && c.Op != "T") {
 				break
 			}
 		}
@@ -835,19 +860,33 @@ var enumAlphabet = []behaviour{
 	{Kind: "S", Code: 401, Chal: 1, Read: -1}, {Kind: "S", Code: 401, Chal: 2, Read: 3, Lat: 4}, {Kind: "S", Code: 200, Read: -1}, {Kind: "S", Code: 404, Read: 0},
 }
 
-func enumScripts(t *testing.T, maxLen int) {
+// enumScripts: every behaviour sequence up to maxLen x body kinds x stacks; with
+// allCancel, additionally every odd cancellation instant up to the end of the
+// uncancelled call (and a little beyond), alternating cancel / deadline.
+func enumScripts(t *testing.T, maxLen int, allCancel bool) {
 	var rec func(prefix []behaviour)
 	rec = func(prefix []behaviour) {
 		if len(prefix) > 0 {
-			for _, op := range []string{"T", "A"} {
+			for _, op := range []string{"T", "A", "W"} {
 				for _, body := range []string{"N", "R", "O", "G1"} {
 					c := &scriptCase{Op: op, MaxRetry: 2, Min: 100, Max: 1000, Tbl: []int64{50, 5000}, Dflt: 300, Cancel: -1, Body: body,
 						Script: append([]behaviour(nil), prefix...)}
 					if body != "N" {
 						c.Data = "0102030405"
 					}
-					scriptCaseRun(t, c)
-					run.Count("enumerated")
+					if !allCancel {
+						scriptCaseRun(t, c)
+						run.Count("enumerated")
+						continue
+					}
+					c.Min, c.Max, c.Tbl, c.Dflt = 4, 20, []int64{2, 50}, 8
+					end := execScript(t, c).end
+					for tc := int64(1); tc <= end+3; tc += 2 {
+						cc := *c
+						cc.Cancel, cc.Deadline = tc, (tc/2)%2 == 1
+						scriptCaseRun(t, &cc)
+						run.Count("enumerated_cancel_instants")
+					}
 				}
 			}
 		}
@@ -887,7 +926,7 @@ func replayCases(t *testing.T) {
 			continue
 		}
 		switch head.Op {
-		case "T", "A":
+		case "T", "A", "W":
 			var c scriptCase
 			if err := json.Unmarshal(js, &c); err != nil {
 				panic(err)
@@ -929,10 +968,11 @@ func TestVerif(t *testing.T) {
 		}
 	}
 	// small-scope exhaustive: every sequence of server behaviours up to a length, every body kind, both stacks
-	enumScripts(t, run.Scale(3, 5))
-	nScripts := run.Scale(2500, 60000)
-	nPoints := run.Scale(20000, 1000000)
-	nBig := run.Scale(6, 60)
+	enumScripts(t, run.Scale(3, 5), false)
+	enumScripts(t, run.Scale(2, 4), true)
+	nScripts := run.Scale(2500, 300000)
+	nPoints := run.Scale(20000, 3000000)
+	nBig := run.Scale(6, 200)
 	for i := 0; i < nScripts; i++ {
 		scriptCaseRun(t, genScript(r, false))
 	}
